@@ -6,6 +6,8 @@ COQ = os.path.join(VERIF, "coq")
 HARN = os.path.join(VERIF, "harness")
 WORK = os.path.join(VERIF, "work")
 REPO = os.environ.get("VERIF_REPO", "/repo")
+# quick-tier case counts of props.py are multiplied by this (a single failing case in a few hundred is a fragile detection)
+QUICK_SCALE = float(os.environ.get("VERIF_QUICK_SCALE", "1.6"))
 
 GOENV = dict(os.environ, GOFLAGS="-mod=mod", GOPROXY="off", GOSUMDB="off", GOTOOLCHAIN="local",
              CGO_ENABLED=os.environ.get("CGO_ENABLED", "1"))
@@ -224,7 +226,7 @@ def run_family(pid, fam, tier, seed, ids=None, outdir=None):
     """Runs one correspondence family: implementation side (Go), then the model side (coqc)."""
     if fam["family"] == "race":
         return run_race(pid, fam, tier, seed, outdir or os.path.join(WORK, pid, fam["name"]))
-    n = fam["thorough"] if tier == "thorough" else fam["quick"]
+    n = fam["thorough"] if tier == "thorough" else int(fam["quick"] * QUICK_SCALE)
     outdir = outdir or os.path.join(WORK, pid, fam["name"])
     shutil.rmtree(outdir, ignore_errors=True)
     os.makedirs(outdir, exist_ok=True)
@@ -293,7 +295,7 @@ def write_replay(pid, fam, seed, tier, cid, tags, detail=""):
         json.dump(rep, open(path, "w"), indent=1)
         return path
     rep = dict(property=pid, family=fam["family"], family_name=fam["name"], profile=fam.get("profile", "default"), seed=seed, tier=tier,
-               n=fam["thorough"] if tier == "thorough" else fam["quick"], case_id=cid, failed_projections=tags, detail=detail,
+               n=fam["thorough"] if tier == "thorough" else int(fam["quick"] * QUICK_SCALE), case_id=cid, failed_projections=tags, detail=detail,
                rerun="./check %s --replay %s" % (pid, path))
     # capture the very case that failed (term + what the implementation did) from the run's case files
     # and let Coq print the model's outcome next to it
